@@ -50,7 +50,7 @@ Definition reg_eqb (a b : reg) : bool :=
   match a, b with Rg x i, Rg y j => bank_eqb x y && Nat.eqb i j end.
 
 Record mst := mkM {
-  m_reg : reg -> Z;
+  m_reg : reg -> option Z;       (* None: never written (reading it faults) *)
   m_arr : nat -> option (list (option Z));
   m_alloc : nat -> bool;          (* virtual id allocated *)
   m_inst : nat -> nat;            (* instance currently held by a virtual id *)
@@ -60,10 +60,10 @@ Record mst := mkM {
 }.
 
 Definition m0 (script : list Z) : mst :=
-  mkM (fun _ => 0) (fun _ => None) (fun _ => false) (fun _ => O) O script [].
+  mkM (fun _ => None) (fun _ => None) (fun _ => false) (fun _ => O) O script [].
 
-Definition upd_reg (f : reg -> Z) (r : reg) (v : Z) : reg -> Z :=
-  fun r' => if reg_eqb r' r then v else f r'.
+Definition upd_reg (f : reg -> option Z) (r : reg) (v : Z) : reg -> option Z :=
+  fun r' => if reg_eqb r' r then Some v else f r'.
 Definition upd_nat {A} (f : nat -> A) (k : nat) (v : A) : nat -> A :=
   fun k' => if Nat.eqb k' k then v else f k'.
 
@@ -74,8 +74,8 @@ Definition set_arr (s : mst) (a : nat) (l : list (option Z)) : mst :=
 Definition emit (s : mst) (e : tev) : mst :=
   mkM (m_reg s) (m_arr s) (m_alloc s) (m_inst s) (m_n s) (m_script s) (e :: m_trace s).
 
-Definition rop_val (s : mst) (o : rop) : Z :=
-  match o with PImm z => z | PReg r => m_reg s r end.
+Definition rop_val (s : mst) (o : rop) : option Z :=
+  match o with PImm z => Some z | PReg r => m_reg s r end.
 
 Fixpoint list_set {A} (l : list A) (i : nat) (v : A) : option (list A) :=
   match l, i with
@@ -84,12 +84,14 @@ Fixpoint list_set {A} (l : list A) (i : nat) (v : A) : option (list A) :=
   | x :: r, S i' => match list_set r i' v with Some r' => Some (x :: r') | None => None end
   end.
 
-Definition qid (s : mst) (r : reg) : option nat :=
-  let v := m_reg s r in
-  if v <? 0 then None else
-  let k := Z.to_nat v in if m_alloc s k then Some k else None.
+Definition zidx (z : option Z) : option nat :=
+  match z with Some z => if z <? 0 then None else Some (Z.to_nat z) | None => None end.
 
-Definition zidx (z : Z) : option nat := if z <? 0 then None else Some (Z.to_nat z).
+Definition qid (s : mst) (r : reg) : option nat :=
+  match zidx (m_reg s r) with
+  | Some k => if m_alloc s k then Some k else None
+  | None => None
+  end.
 
 Definition exec_instr (i : instr) (s : mst) : option mst :=
   match i with
@@ -131,13 +133,13 @@ Definition exec_instr (i : instr) (s : mst) : option mst :=
       | None => None
       end
   | IStore v a ix =>
-      match m_arr s a, zidx (rop_val s ix) with
-      | Some l, Some k =>
-          match list_set l k (Some (rop_val s v)) with
+      match m_arr s a, zidx (rop_val s ix), rop_val s v with
+      | Some l, Some k, Some w =>
+          match list_set l k (Some w) with
           | Some l' => Some (set_arr s a l')
           | None => None
           end
-      | _, _ => None
+      | _, _, _ => None
       end
   | ILoad r a ix =>
       match m_arr s a, zidx (rop_val s ix) with
@@ -148,11 +150,19 @@ Definition exec_instr (i : instr) (s : mst) : option mst :=
           end
       | _, _ => None
       end
-  | IAdd d x y => Some (set_reg s d (m_reg s x + rop_val s y))
-  | IAddm d x y m => if m <=? 0 then None else Some (set_reg s d ((m_reg s x + rop_val s y) mod m))
+  | IAdd d x y =>
+      match m_reg s x, rop_val s y with
+      | Some a, Some b => Some (set_reg s d (a + b))
+      | _, _ => None
+      end
+  | IAddm d x y m =>
+      match m_reg s x, rop_val s y with
+      | Some a, Some b => if m <=? 0 then None else Some (set_reg s d ((a + b) mod m))
+      | _, _ => None
+      end
   | IArray n a => if n <? 0 then None else Some (set_arr s a (repeat None (Z.to_nat n)))
-  | IRetArr _ => Some s
-  | IRetReg _ => Some s
+  | IRetArr a => match m_arr s a with Some _ => Some s | None => None end
+  | IRetReg r => match m_reg s r with Some _ => Some s | None => None end   (* returning an unwritten register faults *)
   | IOpaque _ => None
   end.
 
@@ -168,7 +178,11 @@ Definition holds (c : cond) (a b : Z) : bool :=
   | CLt => a <? b | CGe => a >=? b
   | CEz => a =? 0 | CNz => negb (a =? 0)
   end.
-Definition holds_at (c : cond) (x y : rop) (s : mst) : bool := holds c (rop_val s x) (rop_val s y).
+Definition holds_at (c : cond) (x y : rop) (s : mst) : option bool :=
+  match rop_val s x, (match c with CEz | CNz => Some 0 | _ => rop_val s y end) with
+  | Some a, Some b => Some (holds c a b)
+  | _, _ => None
+  end.
 
 (* model of netqasm.lang.ir.flip_branch_instr *)
 Definition flip (c : cond) : cond :=
@@ -181,31 +195,31 @@ Inductive sx : list sir -> mst -> mst -> Prop :=
 with sx1 : sir -> mst -> mst -> Prop :=
 | sx_I : forall i s s', exec_instr i s = Some s' -> sx1 (XI i) s s'
 | sx_If_true : forall pre c x y body s s1 s2,
-    exec_instrs pre s = Some s1 -> holds_at c x y s1 = true -> sx body s1 s2 ->
+    exec_instrs pre s = Some s1 -> holds_at c x y s1 = Some true -> sx body s1 s2 ->
     sx1 (XIf pre c x y body) s s2
 | sx_If_false : forall pre c x y body s s1,
-    exec_instrs pre s = Some s1 -> holds_at c x y s1 = false ->
+    exec_instrs pre s = Some s1 -> holds_at c x y s1 = Some false ->
     sx1 (XIf pre c x y body) s s1
 | sx_Loop : forall r a b st body s s',
     sxloop r b st body (set_reg s r a) s' -> sx1 (XLoop r a b st body) s s'
 | sx_Until : forall r mx body pre x lim cl s s',
     sxuntil r mx body pre x lim cl (set_reg s r 0) s' -> sx1 (XUntil r mx body pre x lim cl) s s'
 with sxloop : reg -> Z -> Z -> list sir -> mst -> mst -> Prop :=
-| sxl_done : forall r b st body s, m_reg s r = b -> sxloop r b st body s s
-| sxl_step : forall r b st body s s1 s2,
-    m_reg s r <> b -> sx body s s1 ->
-    sxloop r b st body (set_reg s1 r (m_reg s1 r + st)) s2 ->
+| sxl_done : forall r b st body s, m_reg s r = Some b -> sxloop r b st body s s
+| sxl_step : forall r b st body s s1 s2 v v1,
+    m_reg s r = Some v -> v <> b -> sx body s s1 -> m_reg s1 r = Some v1 ->
+    sxloop r b st body (set_reg s1 r (v1 + st)) s2 ->
     sxloop r b st body s s2
 with sxuntil : reg -> Z -> list sir -> list instr -> rop -> Z -> list sir -> mst -> mst -> Prop :=
-| sxu_max : forall r mx body pre x lim cl s, m_reg s r = mx -> sxuntil r mx body pre x lim cl s s
-| sxu_exit : forall r mx body pre x lim cl s s1 s2,
-    m_reg s r <> mx -> sx body s s1 -> exec_instrs pre s1 = Some s2 ->
-    rop_val s2 x <? lim = true ->
+| sxu_max : forall r mx body pre x lim cl s, m_reg s r = Some mx -> sxuntil r mx body pre x lim cl s s
+| sxu_exit : forall r mx body pre x lim cl s s1 s2 v w,
+    m_reg s r = Some v -> v <> mx -> sx body s s1 -> exec_instrs pre s1 = Some s2 ->
+    rop_val s2 x = Some w -> w <? lim = true ->
     sxuntil r mx body pre x lim cl s s2
-| sxu_again : forall r mx body pre x lim cl s s1 s2 s3 s4,
-    m_reg s r <> mx -> sx body s s1 -> exec_instrs pre s1 = Some s2 ->
-    rop_val s2 x <? lim = false -> sx cl s2 s3 ->
-    sxuntil r mx body pre x lim cl (set_reg s3 r (m_reg s3 r + 1)) s4 ->
+| sxu_again : forall r mx body pre x lim cl s s1 s2 s3 s4 v w v3,
+    m_reg s r = Some v -> v <> mx -> sx body s s1 -> exec_instrs pre s1 = Some s2 ->
+    rop_val s2 x = Some w -> w <? lim = false -> sx cl s2 s3 -> m_reg s3 r = Some v3 ->
+    sxuntil r mx body pre x lim cl (set_reg s3 r (v3 + 1)) s4 ->
     sxuntil r mx body pre x lim cl s s4.
 
 Scheme sx_mut := Minimality for sx Sort Prop
@@ -230,9 +244,11 @@ Definition fstep (c : list fcmd) (st : nat * mst) : option (nat * mst) :=
   | Some (FLab _) => Some (S pc, s)
   | Some (FJmp l) => match find_lab l c 0 with Some p => Some (p, s) | None => None end
   | Some (FBr cnd x y l) =>
-      if holds_at cnd x y s
-      then match find_lab l c 0 with Some p => Some (p, s) | None => None end
-      else Some (S pc, s)
+      match holds_at cnd x y s with
+      | Some true => match find_lab l c 0 with Some p => Some (p, s) | None => None end
+      | Some false => Some (S pc, s)
+      | None => None
+      end
   end.
 
 Inductive fstar (c : list fcmd) : nat * mst -> nat * mst -> Prop :=
